@@ -36,7 +36,7 @@ def run(out, tier, seed):
     for (a, b), t in zip(hr, htabs):
         nhs = len(range(a, b + 1, step))
         bounds = [k for k in range(a, b + 1) if k != 0 and ((k % 100 == 0 and k <= 10000) or (k % 1000 == 0 and k > 10000))]
-        jobs.append({'kind': 'c18height', 'lo': a, 'hi': b, 'hs': t['hs'], 'nb': t['nb'], 'nhs': nhs, 'nnb': 2 * len(bounds)})
+        jobs.append({'kind': 'c18height', 'lo': a, 'hi': b, 'hs': t['hs'], 'nb': t['nb'], 'near': t['near'], 'nhs': nhs, 'nnb': 2 * len(bounds)})
     # ---- codes and refusals
     ctab = fw.pool_map('harness.fnwork', 'c18_codes', [0])[0]
     jobs.append(dict(kind='c18code', lo=0, hi=0, **ctab))
@@ -56,7 +56,7 @@ def run(out, tier, seed):
                     payload['m'] = k
                     payload['row'] = j['rows'][k - j['lo']][:40]
                 elif j['kind'] == 'c18height' and k >= 1:
-                    src = j['nb'] if 'Neighbours' in clause else j['hs']
+                    src = j['nb'] if 'Neighbours' in clause else (j['near'] if 'NearBoundary' in clause else j['hs'])
                     payload['entry'] = src[k - 1] if k - 1 < len(src) else None
                 elif j['kind'] == 'c18code' and k >= 1:
                     for fld, cl in (('oc', 'C18_Okta2Code'), ('ni', 'C18_NonIntegersRefused'), ('pr', 'C18_OutOfRangeRefused'), ('pa', 'C18_InRangeAccepted')):
